@@ -111,7 +111,8 @@ def main(tier):
     meta = {}
     cid = itertools.count(1)
     nchains = 300 if tier == "quick" else 6000
-    for _ in range(nchains):
+    nenc = 500 if tier == "quick" else 8000          # chains over the signature / key encoding rules (below)
+    for ci in range(nchains + nenc):
         if rng.random() < 0.5:
             scr = G.rand_script(rng, rng.choice([3, 6, 10, 16]), allow_sig=rng.random() < 0.3)
         else:
@@ -120,7 +121,7 @@ def main(tier):
         st = G.rand_stack(rng, 3)
         sv = rng.choice((0, 1, 3))
         order = exec_flags[:]; rng.shuffle(order)
-        if rng.random() < 0.25:
+        if ci >= nchains:
             # signature / key ENCODING rules (DERSIG, LOW_S, STRICTENC, NULLFAIL, WITNESS_PUBKEYTYPE) in every combination: crafted signatures
             # (DER-valid low-S with defined / undefined hash types, high-S, padded DER, garbage, empty) x key shapes; no transaction, so the
             # check itself fails and only the encoding rules and NULLFAIL decide
